@@ -145,7 +145,8 @@ func scenWindow(n int, mainnet bool, epoch uint64, variant int) Case {
 	case 3:
 		h.add(h.fresh(), d+Hour, "P", false)
 	}
-	ts = append(ts, windowEdges(epoch, day+1)...)
+	d1 := epoch + (day+1)*Day
+	ts = append(ts, d1+13*Hour-1, d1+13*Hour, d1+20*Hour)
 	name := fmt.Sprintf("window%d", variant)
 	return Case{Kind: "quorum", Name: name, Epoch: epoch, Mainnet: mainnet, Recs: h.recs, Qs: qs(-1, true, 1, ts...)}
 }
@@ -306,11 +307,12 @@ func sweep(c *vh.Ctx) []Case {
 			if mainnet && c.Tier == "quick" && n%4 != 3 {
 				continue
 			}
+			quickSkip := c.Tier == "quick" && n > 12 && n%3 != 0
 			out = append(out, scenGenesis(n, mainnet, EpochMain))
 			out = append(out, scenMaturity(n, mainnet, EpochMain))
 			out = append(out, scenPledging(n, mainnet, EpochMain))
 			for v := 0; v <= 3; v++ {
-				if v == 2 {
+				if v == 2 || (quickSkip && v != 0) {
 					continue
 				}
 				w := scenWindow(n, mainnet, EpochMain, v)
@@ -318,7 +320,9 @@ func sweep(c *vh.Ctx) []Case {
 				if v == 0 {
 					d := EpochMain + 30*Day
 					out = append(out, withRemoval(w, d+13*Hour+30*Second))
-					out = append(out, withRemoval(w, d+12*Hour+59*60*Second))
+					if !quickSkip {
+						out = append(out, withRemoval(w, d+12*Hour+59*60*Second))
+					}
 				}
 			}
 			if mainnet {
